@@ -1,6 +1,9 @@
 package main
 
 import (
+	"os"
+	"encoding/json"
+	"bufio"
 	"fmt"
 	"math/rand"
 )
@@ -131,6 +134,47 @@ func runC16(args []string) error {
 			frame(c, genJ2KSamples(r, "noise", c.W, c.H, 1, 8))
 		}
 	}
-	fmt.Printf("c16: scenarios=%d events=%d\n", scn, t.n)
+	// reverse direction (informational): codestreams written by the TLA+ reference encoder (spec/J2kEnc.tla) decoded by the library
+	nrev := 0
+	if f.scn != "" {
+		fh, err := os.Open(f.scn)
+		if err != nil {
+			return err
+		}
+		defer fh.Close()
+		sc := bufio.NewScanner(fh)
+		sc.Buffer(make([]byte, 1<<20), 1<<26)
+		for sc.Scan() {
+			var b struct {
+				Stream, Src                   []int
+				W, H, C, P, Levels, Cbw, Cbh int
+				Mct                           bool
+				Cls                           string
+			}
+			if err := json.Unmarshal(sc.Bytes(), &b); err != nil {
+				return fmt.Errorf("j2k scenario: %v", err)
+			}
+			st := make([]byte, len(b.Stream))
+			for i, v := range b.Stream {
+				st[i] = byte(v)
+			}
+			scn++
+			t.Reset(scn)
+			var d decResult
+			pan, site, class := protect(func() { d = rtDecode(rtCase{API: "j2k"}, st) })
+			es := errStr(d.err)
+			if pan {
+				es = "panic: " + site + ": " + class
+			}
+			out := []int{}
+			if es == "" {
+				out = containerValues(d.pix, b.P)
+			}
+			t.Event("j2krev", "cfg", json.RawMessage(fmt.Sprintf(`{"w":%d,"h":%d,"c":%d,"p":%d,"levels":%d,"cbw":%d,"cbh":%d,"mct":%v,"cls":"%s"}`, b.W, b.H, b.C, b.P, b.Levels, b.Cbw, b.Cbh, b.Mct, b.Cls)),
+				"src", b.Src, "out", out, "gw", d.w, "gh", d.h, "gc", d.c, "gp", d.p, "err", es)
+			nrev++
+		}
+	}
+	fmt.Printf("c16: scenarios=%d j2krev=%d events=%d\n", scn, nrev, t.n)
 	return nil
 }
